@@ -167,16 +167,17 @@ theorem TreeOrd.no_swap {V : List Nat} {L : List Pair} (h : TreeOrd V L) : ∀ p
     obtain ⟨h1, h2, h3⟩ := h
     intro p hp hs
     rcases List.mem_cons.mp hp with hp | hp <;> rcases List.mem_cons.mp hs with hs | hs
-    · subst hp
-      have : p.2 = p.1 := by have := congrArg Prod.fst hs; simpa using this
-      rw [this] at h2; exact h2 h1
-    · subst hp
-      exact TreeOrd.snd_not_mem h3 _ hs (List.mem_cons_of_mem _ h1)
-    · have e1 : q.1 = p.2 := by rw [← hs]
+    · have e1 : p.2 = q.1 := congrArg Prod.fst hs
+      rw [hp] at e1
+      rw [e1] at h2; exact h2 h1
+    · have := TreeOrd.snd_not_mem h3 _ hs
+      apply this
+      show p.1 ∈ q.2 :: V
+      rw [hp]; exact List.mem_cons_of_mem _ h1
+    · have e1 : p.2 = q.1 := congrArg Prod.fst hs
       have := TreeOrd.snd_not_mem h3 p hp
       apply this
-      have e2 : q.2 = p.1 := by rw [← hs]
-      rw [← e2]; exact List.mem_cons_self ..
+      rw [e1]; exact List.mem_cons_of_mem _ h1
     · exact ih h3 p hp hs
 
 /-- everything reached is connected to `w` through the walked edges alone -/
@@ -294,6 +295,13 @@ theorem walk_fuel {S : List Edge} {nb : Nat → List Nat} (hadj : ∀ u v, v ∈
         · simp only [List.length_append, List.length_reverse, List.length_cons] at hfuel ⊢; omega
         · omega
 
+theorem unseen_singleton_lt (N : List Nat) (w : Nat) (hw : w ∈ N) : unseen N [w] < N.length := by
+  have h := filter_length_lt (l := N) (p := fun _ => true) (q := fun x => decide (x ∉ [w]))
+    (fun _ _ => rfl) hw rfl (by simp)
+  have e : (N.filter (fun _ => true)).length = N.length := by simp
+  unfold unseen
+  omega
+
 /-- more fuel than `Hier.fuel` files the same pairs in the same order: the fuel is not what ends the traversal -/
 theorem traverse_fuel {H : Hier} {nb : Sig → List Sig} (hv : ValidOrder H nb) (w : Sig) (f : Nat) (hf : H.fuel ≤ f) :
     walk nb f [w] [w] = traverse H nb w := by
@@ -301,13 +309,9 @@ theorem traverse_fuel {H : Hier} {nb : Sig → List Sig} (hv : ValidOrder H nb) 
   apply walk_fuel hv.hadj hv.hnd (w :: nodesOf H.edges) (closed_cons_nodesOf _ w) H.fuel f [w] [w]
   · intro x hx; simp only [List.mem_singleton] at hx; subst hx; exact List.mem_cons_self ..
   · exact fun _ hx => hx
-  · have : unseen (w :: nodesOf H.edges) [w] < (w :: nodesOf H.edges).length := by
-      have h := filter_length_lt (l := w :: nodesOf H.edges) (p := fun _ => true) (q := fun x => decide (x ∉ [w]))
-        (fun _ _ => rfl) (List.mem_cons_self ..) rfl (by simp)
-      have e : ((w :: nodesOf H.edges).filter (fun _ => true)).length = (w :: nodesOf H.edges).length := by simp
-      unfold unseen
-      omega
-    simp only [List.length_singleton, List.length_cons, Hier.fuel] at this ⊢
+  · have := unseen_singleton_lt (w :: nodesOf H.edges) w (List.mem_cons_self ..)
+    have hfu : H.fuel = (nodesOf H.edges).length + 2 := rfl
+    simp only [List.length_cons, List.length_nil] at this ⊢
     omega
   · exact hf
 
